@@ -9,6 +9,8 @@ Correspondence sections (every call goes to the *real* WeasyPrint function, in-p
   width-minmax        block.block_level_width                         (decorated: handle_min_max_width)
   page                page.page_width_or_height, page_width, page_height (handle_min_max_height)
   wrappers            min_max.handle_min_max_width / _height around a function that does nothing
+  stacking            one-page block/paragraph documents biased to margin collapsing, laid out by the real pipeline,
+                      against the pagination model (position_y, margins, heights of every box, y of every line)
   documents           random trees of block divs rendered with harness/docs.py; every block box's used
                       values and position_x against the model applied top-down
 """
@@ -561,6 +563,175 @@ def etree_from_meta(t):
 
 
 # --------------------------------------------------------------------------------------------------
+# vertical stacking and margin collapsing across boxes (clauses g, h) through the pagination model
+
+def gen_collapse_doc(rng):
+    """A one-page PM document (harness/pm.py format) biased to margin collapsing: empty blocks with height
+    auto / 0, negative margins, nested first / last children, min-height, the occasional padding or border that
+    separates margins, fixed heights, short paragraphs as content."""
+    from harness import pm
+    counter = [0]
+
+    def nid():
+        counter[0] += 1
+        return counter[0]
+
+    def margin():
+        r = rng.random()
+        if r < .25:
+            return F(0)
+        if r < .8:
+            return F(rng.choice([2, 3, 4, 5, 7, 8, 10, 12, 15, 16, 20, 30]))
+        return -F(rng.choice([2, 3, 4, 6, 8, 15]))
+
+    def style(closed_bias=.15):
+        st = pm.default_style(mt=margin(), mb=margin())
+        if rng.random() < closed_bias:
+            st[rng.choice(['pt', 'bt'])] = F(rng.choice([1, 2, 4]))
+        if rng.random() < closed_bias:
+            st[rng.choice(['pb', 'bb'])] = F(rng.choice([1, 2, 4]))
+        return st
+
+    def empty():
+        st = style(.08)
+        r = rng.random()
+        if r < .45:
+            st['height'] = F(0)
+        elif r < .55:
+            st['height'] = F(rng.choice([5, 10, 20]))
+        if rng.random() < .08:
+            st['minH'] = F(rng.choice([5, 15]))
+        return dict(kind='block', id=nid(), st=st, kids=[])
+
+    def para():
+        st = pm.default_style(mt=margin(), mb=margin())
+        return dict(kind='para', id=nid(), n=rng.choice([1, 1, 2]), lineH=F(10), st=st, kids=[])
+
+    def block(depth):
+        st = style(.2)
+        if rng.random() < .1:
+            st['height'] = F(rng.choice([0, 20, 40]))
+        if rng.random() < .1:
+            st['minH'] = F(rng.choice([5, 30]))
+        if rng.random() < .05:
+            st['maxH'] = F(rng.choice([10, 30]))
+        return dict(kind='block', id=nid(), st=st, kids=kids(depth + 1, rng.choice([1, 1, 2, 3])))
+
+    def kids(depth, count):
+        out = []
+        for _ in range(count):
+            r = rng.random()
+            if r < .4:
+                out.append(empty())
+            elif r < .7 or depth >= 4:
+                out.append(para())
+            else:
+                out.append(block(depth))
+        return out
+
+    body_st = pm.default_style()
+    if rng.random() < .3:
+        body_st.update(mt=margin(), mb=margin())
+    if rng.random() < .3:
+        body_st['pt'] = F(1)
+    body = dict(kind='block', id=nid(), st=body_st, kids=kids(1, rng.choice([2, 3, 4, 5, 6])))
+    root = dict(kind='block', id=nid(), st=pm.default_style(isRoot=True), kids=[body])
+    return dict(pageH=F(4096), ltr=rng.random() < .8, root=root)
+
+
+def _collapse(ms):
+    return max([0] + [m for m in ms if m > 0]) + min([0] + [m for m in ms if m < 0])
+
+
+def clause_stacking(doc, out):
+    """Clauses (g)(h) on the implementation's laid-out boxes (one page).  Between two consecutive children with
+    content or with their own border/padding, separated only by empty blocks whose margins are adjoining
+    (no border, padding, min-height; height auto or 0: CSS 2.1 8.3.1), the distance from the bottom border edge
+    of the first to the top border edge of the second is (largest positive + most negative) of all the margins
+    in between: each margin counted once.  A parent without top (bottom) border/padding shares its top (bottom)
+    border edge with its first (last) such child."""
+    if out.startswith('err:'):
+        return f'layout raised {out}'
+    pages = sx.loads_line(out)
+    if len(pages) != 1:
+        return None
+    styles = {}
+
+    def index(box):
+        styles[box['id']] = box
+        for k in box['kids']:
+            index(k)
+    index(doc['root'])
+
+    def geo(frag):
+        y, mt, mb, pt, pb, bt, bb, h = (F(v) for v in frag[3:11])
+        return {'top': y + mt, 'bottom': y + mt + bt + pt + h + pb + bb, 'mt': mt, 'mb': mb,
+                'content_top': y + mt + bt + pt}
+
+    def kind(box):
+        """(collapses through, top margin is its own, bottom margin is its own)"""
+        st = box['st']
+        if box['kind'] == 'para':
+            return False, True, True
+        open_top, open_bottom = st['bt'] == 0 and st['pt'] == 0, st['bb'] == 0 and st['pb'] == 0
+        if not box['kids']:
+            through = open_top and open_bottom and st['minH'] == 0 and st['height'] in ('auto', 0)
+            return through, not through, not through
+        # with children: the top margin is separated from theirs by a top border/padding, the bottom margin by
+        # a bottom border/padding or a specified height (CSS 2.1 8.3.1)
+        return False, not open_top, (not open_bottom) or st['height'] != 'auto'
+
+    def check(frag):
+        if frag[0] != 'b':
+            return None
+        box = styles[int(frag[1])]
+        kids = frag[-1]
+        if len(kids) != len(box['kids']):
+            return None
+        g = geo(frag)
+        st = box['st']
+        prev, between = None, []
+        first_seen = False
+        last_solid = None
+        for kf in kids:
+            kb = styles[int(kf[1])]
+            through, top_own, bottom_own = kind(kb)
+            if through:
+                between += [kb['st']['mt'], kb['st']['mb']]
+                continue
+            kg = geo(kf)
+            if prev is not None and top_own:
+                margins = [prev[1]['st']['mb'], *between, kb['st']['mt']]
+                want = _collapse(margins)
+                got = kg['top'] - prev[0]['bottom']
+                if got != want:
+                    return (f'boxes n{prev[1]["id"]} and n{kb["id"]} (children of n{box["id"]}): the adjoining '
+                            f'margins {[str(m) for m in margins]} collapse to {want} (largest positive + most '
+                            f'negative), but the border boxes are {got} apart')
+            elif (not first_seen and top_own and not st['isRoot'] and st['bt'] == 0 and st['pt'] == 0 and
+                  kg['top'] != g['top']):
+                return (f'n{box["id"]} has no top border/padding, so its top margin collapses with its first '
+                        f'child n{kb["id"]}: both top border edges must coincide, got {g["top"]} and {kg["top"]}')
+            prev = (kg, kb) if bottom_own else None
+            last_solid = (kg, kb) if (top_own and bottom_own) else None
+            between, first_seen = [], True
+        prev = last_solid
+        if (prev is not None and not between and not st['isRoot'] and st['bb'] == 0 and st['pb'] == 0 and
+                st['height'] == 'auto' and st['minH'] == 0 and st['maxH'] == 'inf' and
+                kids and int(kids[-1][1]) == prev[1]['id'] and
+                g['bottom'] != max(prev[0]['bottom'], g['content_top'])):
+            return (f'n{box["id"]} (auto height, no bottom border/padding): its bottom border edge {g["bottom"]} '
+                    f'must be that of its last child n{prev[1]["id"]}, {prev[0]["bottom"]} (or its own content '
+                    f'top {g["content_top"]} if that is lower: heights are not negative)')
+        for kf in kids:
+            r = check(kf)
+            if r:
+                return r
+        return None
+    return check(pages[0][-1])
+
+
+# --------------------------------------------------------------------------------------------------
 # documents
 
 PCTS = [F(0), F(25, 4), F(25, 2), F(25), F(75, 2), F(50), F(125, 2), F(75), F(100), F(125), F(150)]
@@ -1057,6 +1228,14 @@ class C05(PropCheck):
                     meta={'dx': atom(dx), 'dy': atom(dy), 'ignore': ignore, 't': etree_meta(t)},
                     nontrivial=bool(t[3]), tags=['ignore' if ignore else 'all', 'zero' if dx == dy == 0 else 'move'])
 
+        from harness import pm_corr
+        sec = run.section('stacking', 'one-page block/paragraph documents biased to margin collapsing (empty blocks '
+                          'with height auto/0, negative margins, nested first/last children, min-height, separating '
+                          'padding/border) laid out by the real pipeline: position_y, used margins, paddings, '
+                          'borders, height of every box and the y of every line against the pagination model; '
+                          'non-trivial = always (pm_corr counts pages >= 2 only)')
+        pm_corr.add_cases(run, sec, run.n(500, 10000), gen=gen_collapse_doc, skip_errors=False)
+
         sec = run.section('documents', 'random trees of block divs (html > body > divs, depth <= 5) with margin / '
                           'padding / border / width / height / min / max / box-sizing from {auto, 0, px, %, em}, '
                           'ltr and rtl, page box with margins/padding/border/width: every box\'s position_x, '
@@ -1100,6 +1279,9 @@ class C05(PropCheck):
             cmd = meta['cmd']
             r = clause_width({'pwv': 'pwh'}.get(cmd, cmd), cb, b, impl)
             return r[0] if r and r[1] is None else None
+        if section == 'stacking':
+            from harness import pm_corr
+            return clause_stacking(pm_corr.doc_from_json(meta['doc']), impl)
         if section == 'box-geometry':
             return clause_edges([F(v) for v in meta['vals']], impl)
         if section == 'translate':
@@ -1170,6 +1352,14 @@ class C05(PropCheck):
             if what and add(what, {'section': 'translate', 'meta': {
                     'dx': atom(dx), 'dy': atom(dy), 'ignore': ignore, 't': etree_meta(t)}}, 'translate'):
                 return found
+        from harness import pm, pm_corr
+        for i in range(400):
+            run.search_stats['evaluations'] += 1
+            pdoc = gen_collapse_doc(rng)
+            what = clause_stacking(pdoc, pm_corr.real_line(pdoc))
+            if what and add(what, {'section': 'stacking', 'html': pm.doc_html(pdoc),
+                                   'meta': {'doc': pm_corr.doc_json(pdoc)}}, f'stacking/{what[:30]}'):
+                return found
         if found:
             return found
         for i in range(150):
@@ -1230,6 +1420,10 @@ class C05(PropCheck):
             cmd = meta['cmd']
             r = clause_width({'pwv': 'pwh'}.get(cmd, cmd), cb, b, run_width(cmd, cb, b))
             return r[0] if r else None
+        if section == 'stacking':
+            from harness import pm_corr
+            doc = pm_corr.doc_from_json(meta['doc'])
+            return clause_stacking(doc, pm_corr.real_line(doc))
         if section == 'box-geometry':
             vals = [F(v) for v in meta['vals']]
             return clause_edges(vals, run_edges(vals))
@@ -1333,7 +1527,8 @@ MANIFEST = {
             'an auto containing block become auto / 0 / inf), box-sizing shifts size/min/max by the same extras and '
             'never below 0, collapse_margin = largest positive + most negative (permutation invariant, '
             'incrementally accumulable, max / min on one-signed lists), children start at the parent content edge '
-            'and fill its width. Vertical stacking (clause g) is the pagination model\'s.',
+            'and fill its width. Vertical stacking and margin adjoining across boxes (clauses g, h) are the pagination '
+            'model\'s theorems (Props/C05Pm), tied here by the stacking section (collapse-biased one-page documents).',
     'note': 'Trusted: Lean kernel, the hand transcription of the named functions (tied to /repo only through the '
             'generated correspondence cases: direct calls with Fractions on real BlockBox/PageBox objects and '
             'rendered documents with dyadic lengths). Known findings (each with a Lean witness and a replay): the '
